@@ -279,6 +279,11 @@ pub fn generate(seed: u64, scale: usize) -> Cases {
         let b = a + 25 + r.below(15);
         o.push("timeline-blackout", timeline_case(&mut rr, 3 + i % 3, b + 30, 90_000, true, Some((a, b))));
     }
+    for i in 0..scale {
+        // a full bucket of nodes without signed-peers support; the nodes with it live in the signed-peers table only
+        let mut rr = r.fork();
+        o.push("timeline-crowded-bucket", timeline_case_x(&mut rr, 24, 60, 60_000, i % 2 == 0, None, true));
+    }
     for i in 0..(2 * scale) {
         // the node is not scheduled for 16..40 minutes while its bootstrap node has gone for good: its peers are still
         // there when it wakes up
@@ -286,11 +291,6 @@ pub fn generate(seed: u64, scale: usize) -> Cases {
         let a = 22 + r.below(5);
         let len = [16u64, 17, 25, 40][i % 4];
         o.push("timeline-long-pause", timeline_case_p(&mut rr, 3 + i % 4, a + len + 40, 90_000, i % 2 == 0, None, false, Some((a, len))));
-    }
-    for i in 0..scale {
-        // a full bucket of nodes without signed-peers support; the nodes with it live in the signed-peers table only
-        let mut rr = r.fork();
-        o.push("timeline-crowded-bucket", timeline_case_x(&mut rr, 24, 60, 60_000, i % 2 == 0, None, true));
     }
     o
 }
